@@ -321,7 +321,10 @@ func rulePartFromRegistry(only ...string) func(r *Run) {
 			var pos token.Pos
 			var accAl *ssa.Alloc
 			var accF *types.Var
-			allInstrs(fn, func(in ssa.Instruction) {
+			// (the struct may be built in a private helper that receives the list as a parameter:
+			// the value is then the argument at the helper's call sites inside the group)
+			group := helperGroup(p, fn)
+			forEachInstrFn(group, func(g *ssa.Function, in ssa.Instruction) {
 				st, ok := in.(*ssa.Store)
 				if !ok {
 					return
@@ -341,9 +344,24 @@ func rulePartFromRegistry(only ...string) func(r *Run) {
 				if on != s.Owner {
 					return
 				}
-				vals = append(vals, st.Val)
 				pos = st.Pos()
-				if al, ok := stripLoads(base).(*ssa.Alloc); ok {
+				if prm, ok := st.Val.(*ssa.Parameter); ok && g != fn {
+					idx := -1
+					for i, q := range g.Params {
+						if q == prm {
+							idx = i
+						}
+					}
+					forEachInstrFn(group, func(h *ssa.Function, in2 ssa.Instruction) {
+						_ = h
+						if c, ok := in2.(ssa.CallInstruction); ok && staticCallee(c) == g && idx >= 0 && idx < len(c.Common().Args) {
+							vals = append(vals, c.Common().Args[idx])
+						}
+					})
+					return
+				}
+				vals = append(vals, st.Val)
+				if al, ok := stripLoads(base).(*ssa.Alloc); ok && g == fn {
 					accAl, accF = al, fv
 				}
 			})
